@@ -38,6 +38,9 @@ pub struct Drv<const N: usize> {
     /// a buffer of another capacity living in a sibling driver: (capacity, pointer), set by the runner
     pub peer: Option<(usize, *mut ())>,
     pub dig: u64,
+    /// canonical digest of everything after the last `expect_layout` marker (C04)
+    pub dig2: u64,
+    pub canon: std::collections::HashMap<i64, i64>,
 }
 
 /// what the scenario runner needs from a driver of any capacity
@@ -48,6 +51,7 @@ pub trait Sub {
     fn set_peer(&mut self, p: Option<(usize, *mut ())>);
     fn do_finish(&mut self, last: bool);
     fn digest(&self) -> u64;
+    fn digest2(&self) -> u64;
 }
 
 impl<const N: usize> Sub for Drv<N> {
@@ -68,6 +72,9 @@ impl<const N: usize> Sub for Drv<N> {
     }
     fn digest(&self) -> u64 {
         self.dig
+    }
+    fn digest2(&self) -> u64 {
+        self.dig2
     }
 }
 
@@ -277,6 +284,8 @@ impl<const N: usize> Drv<N> {
             calls: 0,
             peer: None,
             dig: 0xcbf29ce484222325,
+            dig2: 0,
+            canon: Default::default(),
         }
     }
 
@@ -393,6 +402,17 @@ impl<const N: usize> Drv<N> {
         ev.feat = self.feat;
         ev.cap = N.min(1 << 20) as i64;
         ev.digest(&mut self.dig);
+        if ev.op == "expect_layout" {
+            // the layout is reached: from here on, two buffers with equal logical contents must be indistinguishable
+            self.dig2 = 0xcbf29ce484222325;
+            self.canon.clear();
+            for id in &ev.post.seq {
+                let n = self.canon.len() as i64 + 1;
+                self.canon.entry(*id).or_insert(n);
+            }
+        } else if self.dig2 != 0 && !matches!(ev.op.as_str(), "poison" | "mk" | "caller_drop") {
+            ev.digest_canon(&mut self.dig2, &mut self.canon);
+        }
         ev.write(&mut self.out);
         self.scn = std::mem::take(&mut ev.scn);
         self.calls += 1;
@@ -1149,7 +1169,12 @@ impl<const N: usize> Drv<N> {
                     View::Into(it) => format!("{:?}", it),
                 });
                 if let Some(s) = r {
-                    ev.ret = Ret { k: "str", s, ..Default::default() };
+                    // the output, and (a plain re-reading of it, no judgement) the integers it lists
+                    let t = s.trim();
+                    let well = t.starts_with('[') && t.ends_with(']');
+                    let nums: Vec<i64> = t.trim_start_matches('[').trim_end_matches(']').split(',')
+                        .filter_map(|x| x.trim().parse::<i64>().ok()).collect();
+                    ev.ret = Ret { k: "str", s, ids2: nums, b: well, ..Default::default() };
                     ev.allocs = -1;
                 }
             }
